@@ -92,6 +92,10 @@ def unit_id_handler(U):
     scenarios.append(("list.both", lambda: ["ID", "Name"], ["ID", "Name"], ["ID", "Name"]))
     scenarios.append(("list.second", lambda: ["ID", "Name"], ["Name"], ["ID", "Name"]))
     scenarios.append(("tuple.none", lambda: ("ID", "Name"), [], ["ID", "Name"]))
+    # 2b. an ATTRIBUTE that is spelled like a GFF column is an attribute: only the ':name:' spelling addresses the column
+    scenarios.append(("str.columnlike", lambda: "source", ["source", "Name"], ["source"]))
+    scenarios.append(("list.columnlike", lambda: ["score", "strand"], ["score", "strand"], ["score", "strand"]))
+    scenarios.append(("list.columnlike.second", lambda: ["seqid", "end"], ["end"], ["seqid", "end"]))
 
     for name, specf, present, order in scenarios:
         attrs, meta = make(present)
@@ -122,6 +126,19 @@ def unit_id_handler(U):
         goal = z3.And(_streq(p.value[0], p.value[1].seqid), p.value[2].arr == p.value[2].arr0) if ok else z3.BoolVal(False)
         U.prove("C04.id_handler[field]#p%d" % p.index, "':seqid:' ==> key is the named column; counters unchanged", p.pc, goal, {},
                 replay=lambda m: _replay_idspec(":seqid:", [("c7", "gene", {})], ["c7"]))
+
+    # 3b. the alias spelling of a column (':chrom:' is the seqid) addresses the column as well
+    def run_alias(ctx):
+        feat, fv = IM.sym_feature("f", {})
+        cnt = IM.SymMap("cnt")
+        cr = IM.blank_creator(C._GFFDBCreator, ghostdb.GhostConn(), id_spec=":chrom:", counters=cnt)
+        r = it.call(C._DBCreator._id_handler, [cr, feat], {})
+        return r, feat, cnt
+    for p in U.explore(run_alias, it):
+        ok = p.kind == "return"
+        goal = z3.And(_streq(p.value[0], p.value[1].seqid), p.value[2].arr == p.value[2].arr0) if ok else z3.BoolVal(False)
+        U.prove("C04.id_handler[field.alias]#p%d" % p.index, "':chrom:' ==> key is the seqid column; counters unchanged", p.pc, goal, {},
+                replay=lambda m: _replay_idspec(":chrom:", [("c7", "gene", {})], ["c7"]))
 
     # 4. callable spec returning an arbitrary string r / None
     for shape in ("string", "none"):
@@ -589,7 +606,7 @@ def unit_bounded(U):
                         fails.append(dict(case, expected=sorted(exp_keys), observed=got))
                     else:
                         notes = {"warning": ["first"], "replace": ["second"], "merge": ["first", "second"]}.get(strategy)
-                        if notes is not None and list(db[idv].attributes["Note"]) != notes:
+                        if notes is not None and sorted(db[idv].attributes["Note"]) != notes:      # the order of a merged value list is not part of the statement
                             fails.append(dict(case, expected={"Note": notes}, observed={"Note": list(db[idv].attributes["Note"])}))
                 except ValueError as e:
                     if exp_keys is not None:
@@ -665,7 +682,61 @@ def unit_gtf_spec(U):
     C03.unit_gtf_init_for("C04")(U)
 
 
-UNITS = [("schema", unit_schema), ("step_key", unit_step_key), ("gtf_spec", unit_gtf_spec), ("default_spec", unit_default_spec), ("id_handler", unit_id_handler), ("autoid", unit_autoid), ("getitem", unit_getitem), ("bounded", unit_bounded)]
+def unit_bounded_lookup_history(U):
+    """Bounded: db[key] returns the feature stored under the key NOW - also when the same FeatureDB object already looked the
+    key up before the feature was rewritten (update() with 'replace' / 'merge', delete + update, add_relation with a
+    child_func), and a key deleted meanwhile raises"""
+    import tempfile, os, shutil
+    fails, cases = [], 0
+    line = lambda i, s, e, extra="": "c\ts\tgene\t%d\t%d\t.\t+\t.\tID=%s%s" % (s, e, i, extra)
+    d = tempfile.mkdtemp()
+    try:
+        for target in (":memory:", "file"):
+            for form in ("str", "feature"):
+                for history in ("replace", "merge", "delete+update", "delete", "add_relation"):
+                    cases += 1
+                    case = {"target": target, "key as": form, "history": history}
+                    try:
+                        dbfn = ":memory:" if target == ":memory:" else os.path.join(d, "l%d.db" % cases)
+                        db = gffutils.create_db(line("g1", 100, 200, ";Name=a") + "\n" + line("g2", 300, 400) + "\n", dbfn, from_string=True)
+                        first = db["g1"] if form == "str" else db[db["g1"]]
+                        other = db["g2"]
+                        key = "g1" if form == "str" else first
+                        if history == "replace":
+                            db.update(line("g1", 500, 900, ";Name=b") + "\n", from_string=True, merge_strategy="replace", make_backup=False)
+                            exp = (500, 900, ["b"])
+                        elif history == "merge":
+                            db.update(line("g1", 100, 200, ";Name=b") + "\n", from_string=True, merge_strategy="merge", make_backup=False)
+                            exp = (100, 200, ["a", "b"])
+                        elif history == "delete+update":
+                            db.delete("g1", make_backup=False)
+                            db.update(line("g1", 7, 8, ";Name=z") + "\n", from_string=True, make_backup=False)
+                            exp = (7, 8, ["z"])
+                        elif history == "delete":
+                            db.delete("g1", make_backup=False)
+                            exp = None
+                        else:
+                            def child_func(parent, child):
+                                child.attributes["Name"] = ["linked"]
+                                return child
+                            db.add_relation("g2", "g1", 1, child_func=child_func)
+                            exp = (100, 200, ["linked"])
+                        try:
+                            f = db[key]
+                            got = (f.start, f.end, sorted(f.attributes.get("Name", [])))
+                        except FeatureNotFoundError:
+                            got = None
+                        g2 = db["g2"]
+                        if got != exp or (g2.start, g2.end) != (300, 400):
+                            fails.append(dict(case, expected={"g1": exp, "g2": (300, 400)}, observed={"g1": got, "g2": (g2.start, g2.end)}))
+                    except Exception as e:
+                        fails.append(dict(case, expected="no exception", observed=repr(e)))
+    finally:
+        shutil.rmtree(d, ignore_errors=True)
+    U.bounded_result("C04.bounded.lookup_history", "db[key] is the feature stored now, whatever the same object looked up before", "5 rewrite histories x key as str / Feature x memory / file", cases, fails)
+
+
+UNITS = [("bounded.lookup_history", unit_bounded_lookup_history), ("schema", unit_schema), ("step_key", unit_step_key), ("gtf_spec", unit_gtf_spec), ("default_spec", unit_default_spec), ("id_handler", unit_id_handler), ("autoid", unit_autoid), ("getitem", unit_getitem), ("bounded", unit_bounded)]
 
 
 def replay_file(doc):
